@@ -6,7 +6,7 @@ import sys
 
 from hypothesis import strategies as st
 
-from harness import boot, build, gen, simnet, wire, httpref
+from harness import boot, build, gen, simnet, wire, httpref, deflateref
 from harness.runner import Prop, Enumeration, held, failed, case_hash
 
 B = wire.build_frame
@@ -162,6 +162,7 @@ class C18(Prop):
             "copts_noise": gen.copts_noise(("poll", "ping_timeout", "close_timeout",)),
             # the k-th write after the upgrade request (an automatic Pong) fails without breaking the transport (a send
             # timeout, a transient error): whatever has arrived is still there to be read
+            "deflate": gen.deflate_opt(),
             "send_fault": gen.weighted([(5, st.none()), (1, st.tuples(st.integers(1, 6), st.sampled_from(["timeout", "oserror"])).map(list))]),
         })
 
@@ -217,7 +218,17 @@ class C18(Prop):
                                    "send_fault": [k, how],
                                    "bursts": [[4, {"kind": "many_small", "n": n, "rep": 60, "ping_every": every}],
                                               [8, {"kind": "many_small", "n": 6, "rep": 1, "ping_every": 2}]]}
+        def with_deflate():
+            for tls in (False, True):
+                for deflate in (True, {"sb": 9, "cb": 9, "snct": True, "cnct": True}):
+                    for fragment in (False, True, "ping_inside"):
+                        for text in (0, 2):
+                            yield {"tls": tls, "eager": False, "record": 16384, "with_reply": False, "chunk": None, "deflate": deflate,
+                                   "bursts": [[4, {"kind": "few_large", "sizes": [70000, 10], "fragment": bool(fragment), "text": text,
+                                                   "inner_ping": fragment == "ping_inside"}],
+                                              [4, {"kind": "many_small", "n": 120, "rep": 10, "ping_every": 7, "shapes": [0, 4, 3, 1, 2]}]]}
         return [Enumeration("sizes_x_records_grid", grid, exhaustive=True),
+                Enumeration("bursts_with_permessage_deflate_negotiated", with_deflate, exhaustive=True),
                 Enumeration("an_automatic_reply_cannot_be_written", failed_reply_writes, exhaustive=True),
                 Enumeration("bursts_followed_by_a_violating_frame", with_tail, exhaustive=True)]
 
@@ -229,6 +240,9 @@ class C18(Prop):
         if case.get("chunk"):
             case["chunk"] = max(case["chunk"], total // 12000 + 1)
         script = [["wait_request"]]
+        # permessage-deflate negotiated (the frames of the bursts stay uncompressed, which the extension allows per
+        # message): every message goes through the extension-aware code paths
+        reply = httpref.canonical_spec(extensions=[deflateref.header_of(case["deflate"])]) if case.get("deflate") else None
         expected = []      # (arrival time, event)
         t = 0.0
         first = True
@@ -244,11 +258,11 @@ class C18(Prop):
             seg = "whole" if not case.get("chunk") else ["uniform", case["chunk"]]
             gap = dt * 0.25
             if first and case["with_reply"]:
-                script.append(["stream", [["reply", None], ["bytes", data]], seg, 0.0])
+                script.append(["stream", [["reply", reply], ["bytes", data]], seg, 0.0])
                 at = 0.0
             else:
                 if first:
-                    script.append(["stream", [["reply", None]], "whole", 0.0])
+                    script.append(["stream", [["reply", reply]], "whole", 0.0])
                 script.append(["stream", [["bytes", data]], seg, gap])
                 t += gap
                 at = t
@@ -263,6 +277,7 @@ class C18(Prop):
         script.append(["eof", 1.0])
         scn = build.scenario(script, url="wss://example.test/" if tls else build.URL,
                              connect_opts={"poll": 60.0, "ping_rate": 0},
+                             ws_opts={"compress": True} if case.get("deflate") else None,
                              attempt_extra=dict({"record": case["record"], "tls_eager": bool(tls and case.get("eager"))},
                                                 **({"faults": {"send": {str(case["send_fault"][0]): case["send_fault"][1]}}}
                                                    if case.get("send_fault") else {})),
